@@ -39,7 +39,7 @@ bool op_valid(const Op& op) {
         return a >= 1 && a <= 2000000000;
     }
     if (kind == G_RANDI_RANGE || kind == G_RANDI_RANGE_N) {
-        return a <= b && a >= -1000000000 && b <= 1000000000;
+        return a <= b && a >= -2147483648ll && b <= 2147483647ll;
     }
     if (kind == G_RAND_RANGE) {
         return op.arg(1) < op.arg(2);
@@ -150,10 +150,18 @@ Op gen_g(Rng& r) {
         break;
     case G_RANDI_RANGE:
     case G_RANDI_RANGE_N: {
-        const int c = int(r.below(4));
+        const int c = int(r.below(5));
         const int64_t lo = (c == 0) ? r.range(-1000, 1000) : (c == 1) ? -r.logi(1, 1000000) : r.range(-5, 5);
         a = double(lo);
         b = double((c == 0) ? lo : lo + r.logi(1, 100000) - 1);   // c == 0: single-value range
+        if (c == 4) {
+            // ranges whose width does not fit in 31 bits (every int pair with imin <= imax is a valid range)
+            static const int64_t wide[][2] = {{0, 2147483647ll}, {-1, 2147483647ll}, {-2000000000ll, 2000000000ll}, {-2147483648ll, 0}, {-2147483648ll, 2147483647ll},
+                                              {-2147483648ll, -2147483648ll}, {2147483647ll, 2147483647ll}, {-1073741824ll, 1073741824ll}};
+            const auto& w = wide[r.below(8)];
+            a = double(w[0]);
+            b = double(w[1]);
+        }
         break;
     }
     case G_RAND_RANGE:
@@ -249,7 +257,9 @@ Result exec(const Plan& pl) {
     const int tsan0 = g_tsan_reports.load();
     SimThreads st;
     st.configure(pl, nthr);
+    constexpr uint64_t THREAD_EDGE_BUDGET = 500000000ull;   // a thread of this engine executes ~1e5 edges
     st.run([&](int me) {
+        sim::set_edge_budget(THREAD_EDGE_BUDGET);
         std::vector<double> pre;
         for (size_t i = 0; i < prog[size_t(me)].size(); ++i) {
             set_cur_opf("C19 thread %d op %zu", me, i);
@@ -283,12 +293,16 @@ Result exec(const Plan& pl) {
         std::vector<double> ref2;
         Bounds b1;
         run_isolated([&] {
+            sim::set_edge_budget(THREAD_EDGE_BUDGET);
+            set_cur_opf("C19 reference replay of thread %d", t);
             for (const auto& op : suffix) {
                 run_op(op, ref1, b1);
             }
         });
         // reference 2: a DIFFERENT history before the same rng(s)
         run_isolated([&] {
+            sim::set_edge_budget(THREAD_EDGE_BUDGET);
+            set_cur_opf("C19 reference replay after another prefix, thread %d", t);
             Rng r(mix(p2seed, uint64_t(t)));
             std::vector<double> junk;
             Bounds bj;
